@@ -148,6 +148,18 @@ func (c *Ctx) execCall(s *State, in ssa.Instruction, cc *ssa.CallCommon, res ssa
 		evName = fc.Event
 	}
 	ev := Event{Name: evName, Recv: recv, Args: args, PC: len(s.pc), Pos: pos}
+	for _, a := range cc.Args {
+		ev.ArgT = append(ev.ArgT, a.Type())
+	}
+	if len(ev.ArgT) != len(args) {
+		ev.ArgT = nil // dispatched invoke: receiver was prepended
+	}
+	if cc.IsInvoke() {
+		ev.RecvT = cc.Value.Type()
+	}
+	if res != nil {
+		ev.ResT = res.Type()
+	}
 	isEvent := c.eng.isEvent(evName)
 
 	// 1. modular: callee (or assumed external) has a contract
@@ -271,7 +283,22 @@ func (c *Ctx) funcValueContractName(v ssa.Value) string {
 		return qualFnName(x.Parent()) + "." + x.Name()
 	case *ssa.Field:
 		return "field." + x.Name()
-	case *ssa.Extract, *ssa.Phi:
+	case *ssa.Extract:
+		// value produced by ranging over a map held in a struct field: contract of that field
+		if nx, ok := x.Tuple.(*ssa.Next); ok {
+			if rg, ok := nx.Iter.(*ssa.Range); ok {
+				if ld, ok := rg.X.(*ssa.UnOp); ok {
+					if fa, ok := ld.X.(*ssa.FieldAddr); ok {
+						pt := fa.X.Type().Underlying().(*types.Pointer).Elem()
+						return shortTypeKey(pt) + "." + pt.Underlying().(*types.Struct).Field(fa.Field).Name()
+					}
+				}
+			}
+		}
+		if n, ok := v.Type().(*types.Named); ok {
+			return shortTypeKey(n)
+		}
+	case *ssa.Phi:
 		if n, ok := v.Type().(*types.Named); ok {
 			return shortTypeKey(n)
 		}
@@ -374,10 +401,6 @@ func (c *Ctx) applyContract(s *State, in ssa.Instruction, fc *FuncContract, call
 	}
 	env.s = s
 	env.results = nil
-	if len(fc.GhostAtExit) > 0 {
-		// the callee's ghost effects happen here, in terms of its parameters
-		c.applyGhostEnv(s, env, fc.GhostAtExit)
-	}
 	if r != nil {
 		if tu, ok := r.(Tu); ok {
 			for i, e := range tu.E {
@@ -386,6 +409,10 @@ func (c *Ctx) applyContract(s *State, in ssa.Instruction, fc *FuncContract, call
 		} else {
 			env.results = []tv{{r, rts[0]}}
 		}
+	}
+	if len(fc.GhostAtExit) > 0 {
+		// the callee's ghost effects happen here, in terms of its parameters and results
+		c.applyGhostEnv(s, env, fc.GhostAtExit)
 	}
 	for _, en := range fc.Ensures {
 		g := env.evalBool(en.Expr)
